@@ -16,12 +16,13 @@ import (
 	"bytes"
 	"encoding/json"
 	"fmt"
+	"io"
+	"log"
 	"net"
 	"os"
 	"os/exec"
 	"path/filepath"
 	"strings"
-	"time"
 
 	"github.com/facebookincubator/dns/dnsrocks/db"
 	"github.com/facebookincubator/dns/dnsrocks/dnsdata"
@@ -77,13 +78,40 @@ type point struct {
 
 type c03case struct {
 	Kind  string          `json:"kind"`
+	Bk    string          `json:"bk,omitempty"` // emitted cases: "rr" | "cdb" | "cdbsep" | "v1" | "v2"
 	Class string          `json:"class"`
 	Maps  []mapdef        `json:"maps"`
 	Nets  []subnet        `json:"nets"`
 	Q     query           `json:"q"`
-	Obs   map[string]*obs `json:"obs"`
+	O     *obs            `json:"o,omitempty"`   // emitted cases: the observation on backend Bk
+	Obs   map[string]*obs `json:"obs,omitempty"` // internal (parent <-> child): all backends
 	Pts   []point         `json:"pts,omitempty"` // rr kind, diagnostic only
 	File  string          `json:"file,omitempty"`
+}
+
+var bkOrder = []string{"cdb", "cdbsep", "v1", "v2"}
+
+// emitCase writes one line per backend
+func emitCase(e *hlib.Emitter, c *c03case, only string) {
+	if c.Kind == "rr" {
+		o := *c
+		o.Bk = "rr"
+		o.O = c.Obs["rr"]
+		o.Obs = nil
+		e.Emit(&o)
+		return
+	}
+	for _, b := range bkOrder {
+		if only != "" && only != b {
+			continue
+		}
+		o := *c
+		o.Bk = b
+		o.O = c.Obs[b]
+		o.Obs = nil
+		o.File = ""
+		e.Emit(&o)
+	}
 }
 
 // ---------------------------------------------------------------- address helpers
@@ -523,7 +551,7 @@ func genRR(r *hlib.Rng, e *hlib.Emitter, nsets int) {
 					c.Q.Fam = 1
 				}
 				runRR(c)
-				e.Emit(c)
+				emitCase(e, c, "")
 			}
 		}
 	}
@@ -626,7 +654,7 @@ func genFile(r *hlib.Rng, idx int) *dbfile {
 	if idx < len(fixedFiles) {
 		return fixedFiles[idx]()
 	}
-	nmaps := 1 + r.Intn(3)
+	nmaps := 3 + r.Intn(4)
 	ids := [][]byte{}
 	perm := []int{0, 1, 2, 3, 4, 5, 6}
 	r.Shuffle(len(perm), func(i, j int) { perm[i], perm[j] = perm[j], perm[i] })
@@ -640,7 +668,7 @@ func genFile(r *hlib.Rng, idx int) *dbfile {
 		wild bool
 	}
 	seen := map[key]bool{}
-	nlines := 1 + r.Intn(6)
+	nlines := nmaps + r.Intn(2*nmaps)
 	for i := 0; i < nlines; i++ {
 		labels := genName(r, f.names)
 		wild := r.Chance(2, 5)
@@ -648,7 +676,7 @@ func genFile(r *hlib.Rng, idx int) *dbfile {
 		if r.Chance(1, 2) {
 			k = '8'
 		}
-		if r.Chance(1, 8) {
+		if r.Chance(1, 12) {
 			labels = nil // root
 		}
 		kk := key{int(k), strings.Join(labels, "."), wild}
@@ -657,45 +685,36 @@ func genFile(r *hlib.Rng, idx int) *dbfile {
 		}
 		seen[kk] = true
 		f.names = append(f.names, labels)
-		id := ids[r.Intn(len(ids))]
+		id := ids[i%len(ids)]
 		f.addMap(byte(k), labels, wild, id, r.Chance(1, 10))
-		if r.Chance(1, 3) { // the same name for the other path
+		if r.Chance(1, 2) { // the same name for the other path
 			k2 := byte('M' + '8' - k)
 			kk2 := key{int(k2), kk.name, wild}
 			if !seen[kk2] {
 				seen[kk2] = true
-				f.addMap(k2, labels, wild, ids[r.Intn(len(ids))], false)
+				id2 := id
+				if r.Chance(1, 4) {
+					id2 = ids[r.Intn(len(ids))]
+				}
+				f.addMap(k2, labels, wild, id2, false)
 			}
 		}
 	}
 	// subnets: each map gets a set (possibly empty); sometimes the default map \0\0 too
-	total := 0
-	for i, id := range ids {
-		if r.Chance(1, 6) {
+	for _, id := range ids {
+		if r.Chance(1, 7) {
 			continue // a map that is named but has no subnets
-		}
-		max := 8
-		if i > 0 {
-			max = 4
-		}
-		if total+max > 14 {
-			max = 14 - total
-		}
-		if max <= 0 {
-			break
 		}
 		dup := 0
 		if r.Chance(1, 12) {
 			dup = 1
 		}
-		set := genSet(r, max, dup)
-		total += len(set)
-		for _, s := range set {
+		for _, s := range genSet(r, 3+r.Intn(8), dup) {
 			f.addNet(s, id, false)
 		}
 	}
-	if r.Chance(1, 5) {
-		for _, s := range genSet(r, 3, 0) {
+	if r.Chance(1, 3) {
+		for _, s := range genSet(r, 4, 0) {
 			f.addNet(s, []byte{0, 0}, r.Chance(1, 2))
 		}
 	}
@@ -723,65 +742,62 @@ func mkfile(build func(f *dbfile)) func() *dbfile {
 }
 
 var fixedFiles = []func() *dbfile{
-	// host bits below the source prefix
 	mkfile(func(f *dbfile) {
-		f.names = [][]string{{"example", "com"}}
+		f.names = [][]string{{"example", "com"}, {"nosub", "com"}, {"wild", "com"}, {"zero", "org"}, {"com"}, {"f20", "net"}, {}, {"b", "org"}}
+		// m1: host bits below the source prefix
 		f.addMap('M', []string{"example", "com"}, false, []byte("m1"), false)
 		f.addMap('8', []string{"example", "com"}, false, []byte("m1"), false)
 		f.addNet(sn("10.0.0.0/8", 2), []byte("m1"), false)
 		f.addNet(sn("10.0.1.0/24", 1), []byte("m1"), false)
-	}),
-	// a map named by M/8 lines that has no subnets, another map sorting before it has
-	mkfile(func(f *dbfile) {
-		f.names = [][]string{{"example", "com"}, {"a", "com"}}
-		f.addMap('M', []string{"example", "com"}, false, []byte("m2"), false)
-		f.addMap('8', []string{"example", "com"}, false, []byte("m2"), false)
-		f.addMap('M', []string{"a", "com"}, false, []byte("m1"), false)
-		f.addMap('8', []string{"a", "com"}, false, []byte("m1"), false)
-		f.addNet(sn("0.0.0.0/0", 1), []byte("m1"), false)
-		f.addNet(sn("::/0", 2), []byte("m1"), false)
-		f.addNet(sn("10.0.0.0/8", 3), []byte("m1"), false)
-	}),
-	// ::/0 declared, no IPv4 default, IPv4 client
-	mkfile(func(f *dbfile) {
-		f.names = [][]string{{"example", "com"}}
-		f.addMap('M', []string{"example", "com"}, true, []byte("m1"), false)
-		f.addMap('8', []string{"example", "com"}, true, []byte("m1"), false)
-		f.addNet(sn("::/0", 1), []byte("m1"), false)
-		f.addNet(sn("2001:db8::/32", 2), []byte("m1"), false)
-	}),
-	// network address :: / 0.0.0.0 with non-default length
-	mkfile(func(f *dbfile) {
-		f.names = [][]string{{"example", "com"}}
-		f.addMap('M', []string{"example", "com"}, false, []byte("m1"), false)
-		f.addMap('8', []string{"example", "com"}, false, []byte("m1"), false)
-		f.addNet(sn("::/64", 1), []byte("m1"), false)
-		f.addNet(sn("0.0.0.0/8", 2), []byte("m1"), false)
-	}),
-	// wildcard map at the root, exact map elsewhere
-	mkfile(func(f *dbfile) {
-		f.names = [][]string{{}, {"example", "com"}, {"www", "example", "com"}}
-		f.addMap('M', nil, true, []byte("m1"), false)
-		f.addMap('8', nil, true, []byte("m1"), false)
-		f.addMap('M', []string{"b", "org"}, false, []byte("m2"), false)
-		f.addNet(sn("0.0.0.0/0", 1), []byte("m1"), false)
-		f.addNet(sn("::/0", 1), []byte("m1"), false)
-		f.addNet(sn("0.0.0.0/0", 2), []byte("m2"), false)
-	}),
-	// wildcard map only, queried at the wildcard's own name and below
-	mkfile(func(f *dbfile) {
-		f.names = [][]string{{"example", "com"}, {"com"}}
-		f.addMap('M', []string{"example", "com"}, true, []byte("m1"), false)
-		f.addMap('8', []string{"example", "com"}, true, []byte("m1"), false)
-		f.addMap('M', []string{"com"}, true, []byte("m2"), false)
-		f.addNet(sn("0.0.0.0/0", 1), []byte("m1"), false)
-		f.addNet(sn("0.0.0.0/0", 2), []byte("m2"), false)
-	}),
-	// default map \0\0 only
-	mkfile(func(f *dbfile) {
-		f.names = [][]string{{"example", "com"}}
+		// m2: named by M/8 lines, no subnets; m1 sorts before it and has range points
+		f.addMap('M', []string{"nosub", "com"}, false, []byte("m2"), false)
+		f.addMap('8', []string{"nosub", "com"}, false, []byte("m2"), false)
+		// m3: ::/0 declared, no IPv4 default
+		f.addMap('M', []string{"wild", "com"}, true, []byte("m3"), false)
+		f.addMap('8', []string{"wild", "com"}, true, []byte("m3"), false)
+		f.addNet(sn("::/0", 1), []byte("m3"), false)
+		f.addNet(sn("2001:db8::/32", 2), []byte("m3"), false)
+		// m4: network address :: / 0.0.0.0 with non-default length
+		f.addMap('M', []string{"zero", "org"}, false, []byte("m4"), false)
+		f.addMap('8', []string{"zero", "org"}, false, []byte("m4"), false)
+		f.addNet(sn("::/96", 1), []byte("m4"), false)
+		f.addNet(sn("0.0.0.0/8", 2), []byte("m4"), false)
+		f.addNet(sn("::/128", 3), []byte("m4"), false)
+		// m5: wildcard map at the root (resolver maps only)
+		f.addMap('M', nil, true, []byte("m5"), false)
+		f.addNet(sn("0.0.0.0/0", 1), []byte("m5"), false)
+		f.addNet(sn("::/0", 1), []byte("m5"), false)
+		// m6: wildcard below the root
+		f.addMap('M', []string{"com"}, true, []byte("m6"), false)
+		f.addMap('8', []string{"com"}, true, []byte("m6"), false)
+		f.addNet(sn("0.0.0.0/0", 2), []byte("m6"), false)
+		// m7: IPv6 subnet straddling the v4-mapped block
+		f.addMap('M', []string{"f20", "net"}, false, []byte("m7"), false)
+		f.addMap('8', []string{"f20", "net"}, false, []byte("m7"), false)
+		f.addNet(sn("::/64", 1), []byte("m7"), false)
+		f.addNet(sn("0.0.0.0/8", 2), []byte("m7"), false)
+		// default map
 		f.addNet(sn("10.0.0.0/8", 1), []byte{0, 0}, true)
 		f.addNet(sn("2001:db8::/32", 2), []byte{0, 0}, false)
+	}),
+	// wildcard maps only, queried at the wildcard's own base name; root wildcard for both paths
+	mkfile(func(f *dbfile) {
+		f.names = [][]string{{"example", "com"}, {"com"}, {}, {"a", "example", "com"}}
+		f.addMap('M', []string{"example", "com"}, true, []byte("m1"), false)
+		f.addMap('8', []string{"example", "com"}, true, []byte("m1"), false)
+		f.addMap('M', nil, true, []byte("m2"), false)
+		f.addMap('8', nil, true, []byte("m2"), false)
+		f.addNet(sn("0.0.0.0/0", 1), []byte("m1"), false)
+		f.addNet(sn("::/0", 3), []byte("m1"), false)
+		f.addNet(sn("0.0.0.0/0", 2), []byte("m2"), false)
+	}),
+	// a wildcard at a name's own base and nothing above it
+	mkfile(func(f *dbfile) {
+		f.names = [][]string{{"example", "com"}}
+		f.addMap('M', []string{"example", "com"}, true, []byte("m1"), false)
+		f.addMap('8', []string{"example", "com"}, true, []byte("m1"), false)
+		f.addNet(sn("0.0.0.0/0", 1), []byte("m1"), false)
+		f.addNet(sn("10.0.0.0/8", 2), []byte{0, 0}, false)
 	}),
 }
 
@@ -927,7 +943,30 @@ func closeAll(bks []backend) {
 	}
 }
 
-func genQueries(r *hlib.Rng, f *dbfile) []struct {
+// mapFor is the harness's own reading of "exact name, else nearest enclosing
+// wildcard" - used only to aim clients at the subnets of the map that applies
+func mapFor(f *dbfile, kind int, labels []string) []byte {
+	find := func(ls []string, wild bool) []byte {
+		p := packName(ls)
+		for _, m := range f.maps {
+			if m.K == kind && m.Wild == wild && bytes.Equal(hlib.Unints(m.Name), p) {
+				return hlib.Unints(m.ID)
+			}
+		}
+		return nil
+	}
+	if id := find(labels, false); id != nil {
+		return id
+	}
+	for i := 1; i <= len(labels); i++ {
+		if id := find(labels[i:], true); id != nil {
+			return id
+		}
+	}
+	return []byte{0, 0}
+}
+
+func genQueries(r *hlib.Rng, f *dbfile, count int) []struct {
 	q     query
 	class string
 } {
@@ -949,30 +988,34 @@ func genQueries(r *hlib.Rng, f *dbfile) []struct {
 		}
 	}
 	names = append(names, nil, []string{"nomap", "test"})
-	// per map id: the subnets
 	byMap := map[string][]subnet{}
 	for _, s := range f.nets {
 		k := string(hlib.Unints(s.Map))
 		byMap[k] = append(byMap[k], s)
 	}
-	var allAddrs []ip16
-	{
-		seen := map[ip16]bool{}
-		for _, a := range criticalAddrs(r, f.nets) {
-			if !seen[a] {
-				seen[a] = true
-				allAddrs = append(allAddrs, a)
-			}
-		}
+	crit := map[string][]ip16{}
+	for k, nets := range byMap {
+		crit[k] = criticalAddrs(r, nets)
 	}
-	budget := 36
-	for budget > 0 {
-		budget--
+	allAddrs := criticalAddrs(r, f.nets)
+	for budget := count; budget > 0; budget-- {
 		n := names[r.Intn(len(names))]
-		a := allAddrs[r.Intn(len(allAddrs))]
+		isRes := r.Chance(2, 5)
+		kind := int('8')
+		if isRes {
+			kind = int('M')
+		}
+		mid := string(mapFor(f, kind, n))
+		pool := allAddrs
+		nets := f.nets
+		if c, ok := crit[mid]; ok && r.Chance(5, 6) {
+			pool = c
+			nets = byMap[mid]
+		}
+		a := pool[r.Intn(len(pool))]
 		q := query{Name: hlib.Ints(packName(n)), A: ints16(a)}
 		class := ""
-		if r.Chance(2, 5) {
+		if isRes {
 			q.Path = "res"
 			q.IPOK = true
 			q.Fam, q.Src = 2, 128
@@ -980,7 +1023,7 @@ func genQueries(r *hlib.Rng, f *dbfile) []struct {
 				q.Fam, q.Src = 1, 32
 			}
 			class = "res"
-			if r.Chance(1, 60) {
+			if r.Chance(1, 80) {
 				q.IPOK = false
 				q.A = ints16(ip16{})
 				q.Fam, q.Src = 2, 128
@@ -992,7 +1035,7 @@ func genQueries(r *hlib.Rng, f *dbfile) []struct {
 			if r.Chance(1, 6) {
 				q.Scope0 = 7
 			}
-			pl := plensFor(r, f.nets, a)
+			pl := plensFor(r, nets, a)
 			p := pl[r.Intn(len(pl))]
 			switch {
 			case isV4(a) && r.Chance(1, 7):
@@ -1009,7 +1052,7 @@ func genQueries(r *hlib.Rng, f *dbfile) []struct {
 				q.Src = p
 				class = "ecs6"
 			}
-			if r.Chance(1, 40) {
+			if r.Chance(1, 50) {
 				q.Fam, q.Src = 0, 0
 				q.A = ints16(mustIP("::ffff:0.0.0.0"))
 				class = "ecs-fam0"
@@ -1039,7 +1082,9 @@ func sepChild(a *hlib.Args, cases []*c03case) error {
 		return err
 	}
 	for _, c := range cases {
-		b, _ := json.Marshal(c)
+		cc := *c
+		cc.Obs, cc.O, cc.Pts = nil, nil, nil
+		b, _ := json.Marshal(&cc)
 		f.Write(b)
 		f.Write([]byte("\n"))
 	}
@@ -1080,26 +1125,14 @@ func runFileCases(a *hlib.Args, cases []*c03case, onlyCDB bool) error {
 		return err
 	}
 	defer os.RemoveAll(dir)
-	tc := time.Now()
 	bks, err := compileAll(dir, cases[0].File, onlyCDB)
 	if err != nil {
 		return err
 	}
-	fmt.Fprintf(os.Stderr, "TIMING compile %v\n", time.Since(tc))
-	if time.Since(tc) > 2*time.Second {
-		fmt.Fprintf(os.Stderr, "SLOWFILE\n%s\nENDSLOW\n", cases[0].File)
-	}
-	defer func() { tz := time.Now(); closeAll(bks); fmt.Fprintf(os.Stderr, "TIMING close %v\n", time.Since(tz)) }()
-	t0 := time.Now()
+	defer closeAll(bks)
 	for _, c := range cases {
-		t1 := time.Now()
 		runDB(dir, c, bks)
-		if d := time.Since(t1); d > 200*time.Millisecond {
-			b, _ := json.Marshal(c)
-			fmt.Fprintf(os.Stderr, "SLOW %v %s\n", d, b)
-		}
 	}
-	fmt.Fprintf(os.Stderr, "TIMING queries %v\n", time.Since(t0))
 	return nil
 }
 
@@ -1142,6 +1175,7 @@ func unpackLabels(p []byte) []string {
 }
 
 func run(a *hlib.Args, e *hlib.Emitter) error {
+	log.SetOutput(io.Discard) // the compilers log their progress
 	if a.Scratch == "" {
 		d, err := os.MkdirTemp("/var/tmp", "c03-")
 		if err != nil {
@@ -1150,6 +1184,13 @@ func run(a *hlib.Args, e *hlib.Emitter) error {
 		defer os.RemoveAll(d)
 		a.Scratch = d
 	}
+	// rdb.NewReader keeps RocksDB's secondary-instance logs under os.TempDir()
+	tmp, err := os.MkdirTemp(a.Scratch, "c03tmp-")
+	if err != nil {
+		return err
+	}
+	defer os.RemoveAll(tmp)
+	os.Setenv("TMPDIR", tmp)
 	if a.Extra == "cdbsep" && !db.SeparateBitMap {
 		return fmt.Errorf("child started without FBDNS_SEPARATE_MASKLENS taking effect")
 	}
@@ -1195,10 +1236,11 @@ func run(a *hlib.Args, e *hlib.Emitter) error {
 			}
 		}
 		for _, c := range order {
-			if a.Extra != "cdbsep" {
-				c.File = ""
+			if a.Extra == "cdbsep" {
+				e.Emit(c) // child: all observations back to the parent
+			} else {
+				emitCase(e, c, c.Bk)
 			}
-			e.Emit(c)
 		}
 		return nil
 	}
@@ -1207,11 +1249,15 @@ func run(a *hlib.Args, e *hlib.Emitter) error {
 	genRR(r, e, len(fixedSets)+a.N)
 
 	r2 := hlib.NewRng(a.Seed, 303)
-	nfiles := len(fixedFiles) + a.N/3
+	nfiles := len(fixedFiles) + a.N/12
 	for i := 0; i < nfiles; i++ {
 		f := genFile(r2, i)
 		var group []*c03case
-		for _, qc := range genQueries(r2, f) {
+		nq := 110
+		if i == 0 {
+			nq = 260
+		}
+		for _, qc := range genQueries(r2, f, nq) {
 			c := &c03case{Kind: "db", Class: qc.class, Maps: f.maps, Nets: f.nets, Q: qc.q, File: f.text}
 			if c.Maps == nil {
 				c.Maps = []mapdef{}
@@ -1230,8 +1276,7 @@ func run(a *hlib.Args, e *hlib.Emitter) error {
 		return err
 	}
 	for _, c := range dbcases {
-		c.File = ""
-		e.Emit(c)
+		emitCase(e, c, "")
 	}
 	return nil
 }
